@@ -299,6 +299,16 @@ Theorem C26_trace_inclusion_sound : forall c evs, accepts c evs = true ->
 Proof. exact accepts_sound. Qed.
 Print Assumptions C26_trace_inclusion_sound.
 
+(* ... and in such a run every observed event is stamped in an LTS state (itself reached by a run of the LTS) whose
+   event log -- the log all theorems above speak about -- already contains the model events it reports: a task's
+   begin/end stamp follows its EvBegin, the value Wait returned (and the Done callback) follows the job's EvResult
+   with that very result, Stop's return follows EvStopRet, a shutdown flag seen set follows EvStop. *)
+Theorem C26_trace_inclusion_backed : forall c its o, c_fixed c = true -> orun c oinit its = Some o ->
+  forall its1 e its2, its = its1 ++ IO e :: its2 ->
+  exists o1, orun c oinit its1 = Some o1 /\ steps c init (labels_of its1) (o_s o1) /\ backed c o1 e.
+Proof. exact obs_backed. Qed.
+Print Assumptions C26_trace_inclusion_backed.
+
 (* non-vacuity: the observed counterpart of [ex_tr] is accepted; a trace in which the second job's task begins
    before the first job's failing task ended is not *)
 Definition ex_obs : list oev :=
@@ -311,3 +321,10 @@ Example C26_trace_inclusion_ex_rejected :
   accepts ex_c [ONewCall 0; ONew 0 true; OGo 0 0; OGo 0 1; ODoneCall 0; ONewCall 1; ONew 1 true; OGo 1 0; ODoneCall 1;
                 OBeg 0 0; OBeg 0 1; OEnd 0 0 true; OBeg 1 0; OEnd 0 1 false; OWait 0 3; OEnd 1 0 true; OWait 1 0] = false.
 Proof. vm_compute. reflexivity. Qed.
+Definition ex_its : list item := match plan ex_c ex_obs with Some x => x | None => [] end.
+Example C26_trace_inclusion_backed_ex :
+  match orun ex_c oinit ex_its with
+  | Some o => obs_of ex_its = ex_obs /\ In (EvResult 0 (RErr 1)) (log (o_s o))
+  | None => False
+  end.
+Proof. vm_compute. split; [reflexivity|]. repeat (first [left; reflexivity | right]). Qed.
